@@ -1731,14 +1731,14 @@ MANIFEST = {
             "operations componentwise over the rational model; own step-by-step correspondence stream) with strict_check_sat_sound / "
             "strict_check_unsat_sound (check(): SAT => both components of mapping satisfy the rows and every variable is within its "
             "bounds in the delta-order; UNSAT => rows + bounds have no delta-rational solution) and strict_handle_assertion_sat_sound / "
-            "strict_handle_assertion_unsat_sound (the same through handle_assertion, for the asserted atoms). STILL MISSING for a full "
-            "strict_sat_sound / strict_unsat_sound: the link between the atoms and slack rows add_ineqs creates and the given constraints "
-            "for the strict solver (proved for the non-strict one), so strict_sat_sound_partial keeps its name; NOT modelled: the strict "
+            "strict_handle_assertion_unsat_sound (the same through handle_assertion, for the asserted atoms). and, through add_ineqs, strict_sat_sound / strict_unsat_sound for whole runs (no exception => x + y*multi_delta satisfies "
+            "every given constraint, strict ones strictly; UNSATException / refused assertion => the constraints have no rational solution); "
+            "strict_sat_sound_partial remains as the lemma it is built on; NOT modelled: the strict "
             "proof-producing wrapper (its answers: Z3 and exact witness evaluation), the "
             "proof-producing wrappers and the macros simplex_macro / strict_simplex_macro / integer_simplex (every proof term they return "
             "is checked by theory.check_proof: concludes false, no gaps, hypotheses literally among the given terms; Z3 confirms the verdict). "
-            "Termination of check under Bland's rule and completeness of the Omega test for exact eliminations were NOT attempted in Lean "
-            "(stated assumptions). In addition every answer of the real Simplex is judged per run: "
+            "Termination of check under Bland's rule is NOT proved in Lean (check_fuel_independent only says that the answer does not "
+            "depend on the fuel once it is not 'fuel'); completeness of the Omega test for exact eliminations was not attempted. Both are stated assumptions. In addition every answer of the real Simplex is judged per run: "
             "witnesses go through checkWitness(Q), 'unsatisfiable' answers are certified by checkFarkas whenever Farkas multipliers "
             "can be read from the solver's explanation (internal fields; if not, or if they do not check, the verdict is decided by Z3 - only "
             "a wrong verdict is a violation), branch-and-bound / strict verdicts are compared with Z3 and brute force. OmegaHOL "
